@@ -418,6 +418,46 @@ def fold(chk, P):
     chk.floor("FOLD", 3)
 
 
+def massless(chk, P):
+    chk.rule("MASSLESS", "growTree's massless-branch decisions test the mass of the body that is actually outboard: the outboard body of the mobilizer just appended, or the far body "
+             "of a finder's joint (child for the forward finder, parent for the reverse finder) -- never a joint-role body where either role may be the outboard one")
+    g = P.fn(G + "::growTree")
+    decls = {d["var"]: d.get("init") for _, _, d in g.events(lambda q: q["k"] == "decl")}
+
+    def res(x, depth=6):
+        x = _strip(x)
+        while depth and isinstance(x, list) and x[:1] == ["var"] and isinstance(decls.get(x[1]), list):
+            x = _strip(decls[x[1]])
+            depth -= 1
+        return x
+
+    def last(n):
+        return str(n).split("::")[-1]
+    n = 0
+    for b, i, e in g.events(lambda q: q["k"] == "mem" and last(q["field"]) == "mass"):
+        n += 1
+        base = res(e["base"])
+        why = "not a getBody(...) of a recognised outboard body"
+        ok = False
+        if isinstance(base, list) and base[0] == "call" and last(base[1]) == "getBody" and len(base[3]) == 1:
+            a = res(base[3][0])
+            if isinstance(a, list) and a[0] == "mem" and last(a[2]) == "outboardBody":
+                o = res(a[1])
+                ok = isinstance(o, list) and o[0] == "call" and last(o[1]) == "back" and bool(sx_find(o, lambda y: y[0] == "mem" and last(y[2]) == "mobilizers"))
+                why = "outboard body of the mobilizer just appended" if ok else "outboardBody of something other than mobilizers.back()"
+            elif isinstance(a, list) and a[0] == "mem" and last(a[2]) in ("childBodyNum", "parentBodyNum"):
+                j = _strip(a[1])
+                src = None
+                if isinstance(j, list) and j[0] == "call" and last(j[1]) == "getJoint" and len(j[3]) == 1:
+                    src = res(j[3][0])
+                fnd = last(src[1]) if isinstance(src, list) and src[0] == "call" else None
+                want = {"findHeaviestUnassignedForwardJoint": "childBodyNum", "findHeaviestUnassignedReverseJoint": "parentBodyNum"}.get(fnd)
+                ok = want == last(a[2])
+                why = ("far body of the joint returned by %s" % fnd) if ok else ("%s of a joint %s" % (last(a[2]), ("returned by %s" % fnd) if fnd else "whose direction of attachment is not known here"))
+        chk.judge(ok, "MASSLESS", "growTree:mass-test#%d:%s" % (n, "outboard-body" if ok else "body-tested-is-the-outboard-one"), "%s:%d" % (g.file, e["line"]), why)
+    chk.shape(n >= 3, "MASSLESS", "growTree:mass-tests", g.loc, "%d" % n)
+
+
 def run(chk, tier, overlays=()):
     units = units_matching(UNITS)
     P = Program(extract(units, hdr="^$", overlays=overlays))
@@ -428,10 +468,15 @@ def run(chk, tier, overlays=()):
     cover(chk, P)
     eligible(chk, P)
     fold(chk, P)
+    massless(chk, P)
 
 
 _F = "SimTKmath/src/MultibodyGraphMaker.cpp"
 MUTATIONS = [
+    dict(name="seeded (sub-agent, round 19): massless test on the joint's child instead of the mobilizer's outboard body", file=_F,
+         old="            if (jtype.numMobilities == 0 || outboard.mass > 0)", new="            if (jtype.numMobilities == 0 || child.mass > 0)", expect="MASSLESS"),
+    dict(name="extension accepts a reverse joint by the mass of its child", file=_F,
+         old="                if (jrev>=0 && getBody(getJoint(jrev).parentBodyNum).mass > 0) {", new="                if (jrev>=0 && getBody(getJoint(jrev).childBodyNum).mass > 0) {", expect="MASSLESS"),
     dict(name="reverse attachment records the level of the inboard body", arm=True, file=_F,
          old="        parent.level = child.level + 1;\n        mobilizers.push_back(Mobilizer(jointNum,parent.level,\n                                       cNum,pNum,true,this));",
          new="        parent.level = child.level + 1;\n        mobilizers.push_back(Mobilizer(jointNum,child.level,\n                                       cNum,pNum,true,this));", expect="MIRROR:addMobilizerForJoint:branches-are-mirror-images"),
